@@ -15,6 +15,7 @@
 #define NMAX 5
 #endif
 #define REP8(F) F(0) F(1) F(2) F(3) F(4) F(5) F(6) F(7)
+#define REP8B(F) F(0) F(1) F(2) F(3) F(4) F(5) F(6) F(7)   /* for use inside a REP8 body */
 #define REP4(F) F(0) F(1) F(2) F(3)
 #define REP3(F) F(0) F(1) F(2)
 typedef struct S_class_tbb__detail__d1__concurrent_priority_queue queue_t;
@@ -149,7 +150,7 @@ int main(void) {
   VP_ASSERT(vp_q_mark(Q) == n, "heapify left unheapified elements (mark != size)");
   VP_ASSERT(heap_ok(n), "heapify: result is not a heap");
 #define H0(k) if (k < n && v0[k] == x) a++;
-#define HC(i) if (i < n) { int a = 0, x = v0[i]; REP8(H0) VP_ASSERT(a == fin_count(x), "heapify lost or duplicated an element"); }
+#define HC(i) if (i < n) { int a = 0, x = v0[i]; REP8B(H0) VP_ASSERT(a == fin_count(x), "heapify lost or duplicated an element"); }
   REP8(HC)
 #else
   /* precondition: the queue is not empty; data[0] has been moved out (its value is dead). The call site additionally has
@@ -162,7 +163,7 @@ int main(void) {
   VP_ASSERT(heap_ok(m1), "reheap: heap part is not a heap");
   /* contents = old contents minus the old top */
 #define R0(k) if (k >= 1 && k < n && v0[k] == x) a++;
-#define RC(i) if (i >= 1 && i < n) { int a = 0, x = v0[i]; REP8(R0) VP_ASSERT(a == fin_count(x), "reheap lost or duplicated an element"); }
+#define RC(i) if (i >= 1 && i < n) { int a = 0, x = v0[i]; REP8B(R0) VP_ASSERT(a == fin_count(x), "reheap lost or duplicated an element"); }
   REP8(RC)
   /* the unheapified tail keeps its elements in place except the last one, which went into the heap (slot 0 is the dead top) */
 #define RT(i) if (i >= 1 && i >= m && i < n1) VP_ASSERT(fin[i] == v0[i], "reheap disturbed the unheapified tail");
